@@ -588,7 +588,7 @@ def r10_8(repo: Repo, rule: str = "R10.8") -> RuleResult:
     under a test that the length is positive."""
     from .common import rel_under
 
-    rr = RuleResult(rule, "reads of the last element `A[len(A) - 1]` of a parameter array are dominated by a non-empty test", floor=2)
+    rr = RuleResult(rule, "reads of the last element `A[len(A) - 1]` of a parameter array are dominated by a non-empty test", floor=1)
     for f in njit_functions(repo):
         sd = single_defs(f)
         g = None
